@@ -100,6 +100,12 @@ func main() {
 					wl.Op{Kind: "import", PC: "exp", NPC: "other", X: -1}, wl.Op{Kind: "lock"}, wl.Op{Kind: "unlock", PC: "cur"}, wl.Op{Kind: "sign", N: 0}, wl.Op{Kind: "sign", N: 3},
 					wl.Op{Kind: "lock"}, wl.Op{Kind: "unlock", PC: "cur"}, wl.Op{Kind: "sign", N: 1})
 			}
+			if r.Chance(1, 3) {
+				// a keystore that never issued a key leaves and comes back while the wallet is unlocked: the keys it issues
+				// afterwards must sign at once (no Lock/Unlock in between)
+				ins = append(ins, wl.Op{Kind: "create", PC: "cur", SeedKind: "fresh", Remark: "never used"}, wl.Op{Kind: "unlock", PC: "cur"}, wl.Op{Kind: "export", PC: "cur", K: -1}, wl.Op{Kind: "delete", PC: "cur", K: -1},
+					wl.Op{Kind: "unlock", PC: "cur"}, wl.Op{Kind: "import", PC: "exp", NPC: "cur", X: -1}, wl.Op{Kind: "next", N: 2, K: -1}, wl.Op{Kind: "next", N: 1, Internal: true, K: -1}, wl.Op{Kind: "sign", N: 0})
+			}
 			pos := 1 + r.Intn(len(ops)/2+1)
 			out := append([]wl.Op{}, ops[:pos]...)
 			out = append(out, ins...)
